@@ -838,6 +838,8 @@ def judge_mbi_full(case, ml, il):
     """every line is compared; any difference is a failing input of the property"""
     if ml == il:
         return ("ok", "")
+    if case.startswith("elfname "):
+        return judge_C19(case, ml, il)
     if any("CRASH" in l or "TIMEOUT" in l for l in il):
         return ("violation", "the implementation crashed or did not terminate")
     return default_judge(case, ml, il)
@@ -845,7 +847,8 @@ def judge_mbi_full(case, ml, il):
 
 def model_ub(case, ml):
     """lines where the model itself predicts undefined behaviour (Fault) on an input inside the contract"""
-    return [l for l in ml if l.endswith(" UB") or " UB " in l or "=UB" in l or "UB-SKIPPED" in l]
+    # ELF section names live at an external address: a name read leaving the external buffer is outside every property's claim
+    return [l for l in ml if (l.endswith(" UB") or " UB " in l or "=UB" in l or "UB-SKIPPED" in l) and not l.startswith("elfname ")]
 
 
 def _is_f18_line(l):
